@@ -259,6 +259,10 @@ class ExprMixin(object):
         if isinstance(node.op, ast.Not):
             return vbool(z3.Not(self.truth(v, node)))
         if isinstance(node.op, ast.USub):
+            if isinstance(v.ty, TOpt) and v.ty.t in (INT, FLOAT):
+                # -None raises TypeError: a safety obligation, then the operation on the value
+                self.safety(z3.Not(opt_is_none(v)), "TypeError", "neg-none", node)
+                v = opt_val(v)
             if v.ty == INT:
                 return vint(-v.t)
             if v.ty == BOOL:
